@@ -4,6 +4,7 @@ import (
 	"encoding/json"
 	"fmt"
 	"io"
+	"net/url"
 	"os"
 	"regexp"
 	"runtime"
@@ -214,7 +215,27 @@ var pluginFiles = map[string]string{
 	"more/ext.lua": "function meta_helper(a, b)\n  return a\nend\n",
 }
 
-func URI(rel string) string { return "file://" + Abs(rel) }
+func URI(rel string) string { return "file://" + encodePath(Abs(rel)) }
+
+// ViewURI is the key under which the diagnostics of a file are kept in RunResult.View: the URI as
+// the server writes it (it does not percent-encode), decoded if it was encoded.
+func ViewURI(rel string) string { return "file://" + Abs(rel) }
+
+// encodePath percent-encodes a path the way VS Code's URI.toString does: everything except
+// unreserved characters and the separators.
+func encodePath(p string) string {
+	var sb strings.Builder
+	for i := 0; i < len(p); i++ {
+		c := p[i]
+		switch {
+		case c >= 'a' && c <= 'z', c >= 'A' && c <= 'Z', c >= '0' && c <= '9', c == '-', c == '.', c == '_', c == '~', c == '/':
+			sb.WriteByte(c)
+		default:
+			fmt.Fprintf(&sb, "%%%02X", c)
+		}
+	}
+	return sb.String()
+}
 
 // Abs returns the absolute simulated path.
 // A path that starts with "/" is already absolute (files of a second workspace root).
@@ -298,6 +319,11 @@ func (e *Engine) drain() {
 				Diagnostics []json.RawMessage `json:"diagnostics"`
 			}
 			json.Unmarshal(m.Params, &p)
+			if strings.Contains(p.URI, "%") {
+				if u, err := url.PathUnescape(p.URI); err == nil {
+					p.URI = u // a client resolves both spellings to the same document
+				}
+			}
 			ds := make([]string, 0, len(p.Diagnostics))
 			for _, d := range p.Diagnostics {
 				ds = append(ds, NormJSON(string(d)))
